@@ -285,7 +285,7 @@ fn write_evidence(env: &Env, id: &str, tier: &str, seed: u64, out: &Outcome, wal
 }
 
 fn is_corpus_property(id: &str) -> bool {
-    !matches!(id, "C07" | "C20")
+    !matches!(id, "C20")
 }
 
 fn run_check(env: &Env, id: &str, tier: &str, seed: u64) -> i32 {
